@@ -584,3 +584,7 @@ pub mod verif_hooks {
     out
   }
 }
+
+/// Verification hook (C09): comment queue of the parser, see source_parser.rs.
+#[cfg(samlang_verif)]
+pub use source_parser::verif_hooks_queue;
